@@ -37,8 +37,9 @@ def finding_matches(f, v):
     if f['property'] != v['property'] or f.get('engine') != v['engine']:
         return False
     if f['engine'] == 'verus':
+        # a finding without `site_text` names a whole contract clause (every exit at which that clause fails)
         return (f.get('unit') == v.get('unit') and f.get('obligation') == v.get('obligation')
-                and norm(f.get('site_text')) == norm(v.get('site_text')))
+                and ('site_text' not in f or norm(f.get('site_text')) == norm(v.get('site_text'))))
     if f['engine'] == 'kani':
         return f.get('harness') == v.get('harness')
     return False
